@@ -525,8 +525,10 @@ def insertNew {α : Type} (key : α → Name) (a : α) (l : List α) : List α :
 def declare {ν : Type} (s : TopStatic ν) : Stmt ν → TopStatic ν
   | .letv d => { s with gnames := s.gnames ++ [d.names] }
   | .fn d =>
-    -- the body sees the function itself for direct calls (recursion) but not yet as a value
-    let c : Closure ν := { decl := d, static := { s.static with nfuns := s.funs.length + 1 }, gnames := s.gnames }
+    -- the body sees the function itself, for direct calls (recursion) and as a value
+    let c : Closure ν :=
+      { decl := d, static := { s.static with nfuns := s.funs.length + 1, fnNames := s.fnNames ++ [(d.name, false)] },
+        gnames := s.gnames }
     { s with funs := s.funs ++ [c], fnNames := s.fnNames ++ [(d.name, false)] }
   | .ffn name _ => { s with ffi := insertNew id name s.ffi, fnNames := s.fnNames ++ [(name, true)] }
   | .structDef info => { s with structs := insertNew StructInfo.name info s.structs }
